@@ -69,7 +69,7 @@ def parse(out: str) -> TLCResult:
             if m:
                 res.violations.append({"inv": m.group(1), "states": [m.group(2).strip()]})
             cur = None
-        elif code in (2110, 2116, 2114, 2111):  # invariant / action property / temporal violated
+        elif code in (2110, 2112, 2113, 2114, 2115, 2116, 2111):  # invariant / action property / temporal violated
             m = re.search(r"(?:Invariant|Action property|property) (\S+) is violated", body)
             cur = {"inv": m.group(1) if m else body.strip()[:80], "states": []}
             res.violations.append(cur)
@@ -90,7 +90,7 @@ def parse(out: str) -> TLCResult:
                 res.coverage[m.group(1)] = res.coverage.get(m.group(1), 0) + int(m.group(3))
         elif code in (1000, 2103, 2104, 2105, 2106, 2154, 2155, 2171, 3002, 3005, 3006, 3007, 2132, 2133, 2134, 2135, 2136, 2137, 2138, 2139) or (sev == 1 and code < 2100):
             res.error = (res.error + "\n" + body).strip()
-        elif sev == 1 and code not in (2107, 2110, 2116, 2114, 2111, 2120, 2121, 2122):
+        elif sev == 1 and code not in (2107, 2110, 2112, 2113, 2115, 2116, 2114, 2111, 2120, 2121, 2122):
             res.error = (res.error + "\n[%d] %s" % (code, body)).strip()
     return res
 
